@@ -1,5 +1,6 @@
 from __future__ import annotations
 
+import ast
 import dataclasses
 import logging
 from copy import deepcopy
@@ -301,7 +302,7 @@ class MyPyAstVisitor:
                 parameters[i] = dataclasses.replace(
                     parameter,
                     is_optional=parameter.docstring.default_value != "",
-                    default_value=parameter.docstring.default_value,
+                    default_value=self._docstring_default_to_value(parameter.docstring.default_value),
                     type=doc_type,
                 )
 
@@ -987,6 +988,18 @@ class MyPyAstVisitor:
 
                 default_is_none = default_value is None
         return default_value, default_is_none
+
+    @staticmethod
+    def _docstring_default_to_value(default_text: str) -> str:
+        """Write a documented default that is a Python string literal ('x') like a string default of the code ("x")."""
+        try:
+            value = ast.literal_eval(default_text)
+        except (ValueError, SyntaxError, MemoryError, RecursionError):
+            return default_text
+        if isinstance(value, str):
+            escaped_value = value.replace("\\", "\\\\").replace('"', '\\"')
+            return f'"{escaped_value}"'
+        return default_text
 
     # #### Reexport utilities
 
